@@ -147,7 +147,9 @@ class World(object):
         return {"p": self.new(op["prog"]["top"], env)}
 
     def op_seed(self, op):
-        self.parties[op["p"]].obj.set_randstate(RandState.mkFromSeed(op["k"]))
+        # (the two-argument form folds a string into the seed)
+        self.parties[op["p"]].obj.set_randstate(
+            RandState.mkFromSeed(op["k"], op["sv"]) if op.get("sv") is not None else RandState.mkFromSeed(op["k"]))
 
     def op_assign(self, op):
         pt = self.parties[op["p"]]
